@@ -85,8 +85,8 @@ def run_steps(model, pcls, K, d, newlayer, oracle, two_step, aliased=False, node
     init_state = dict(part.f)
     del I.events[:]
     h = A.atom("h", integer=True, nonnegative=True)
-    table = A.LayerTable(I)
     D = h if newlayer else A.atom("D", integer=True, positive=True)
+    table = A.LayerTable(I, base_depth=D)
     part.f["node_list"] = table
     part.f["depth"] = D
     I.partition_depth = lambda: part.f["depth"]
@@ -112,6 +112,11 @@ def run_steps(model, pcls, K, d, newlayer, oracle, two_step, aliased=False, node
     if two_step and st.crash is None:
         # a cousin at the same depth, expanded into the (now existing) next layer
         Dnow = part.f["depth"]
+        # the layers appended by the first step are part of the (abstract) table from now on
+        if isinstance(part.f.get("node_list"), A.LayerTable) and part.f["node_list"].appended:
+            tb = part.f["node_list"]
+            tb.base_depth = I.arith(ast.Add(), tb.base_depth, len(tb.appended))
+            tb.appended = []
         parent2, lo2, hi2, idx2 = new_parent(I, d, "b", h)
         s2 = Step()
         s2.parent, s2.lo, s2.hi, s2.i, s2.h, s2.newlayer, s2.D0 = parent2, lo2, hi2, idx2, h, False, Dnow
